@@ -58,7 +58,8 @@ Definition safe_request (o : os) (q : req) : Prop :=
 
 Definition request_region (q : req) : region :=
   {| g_addr := q_raw q; g_size := q_size q; g_prot := q_prot q; g_flags := q_flags q;
-     g_file := q_file q; g_owned := match q_raw q with None => true | Some _ => false end |}.
+     g_file := q_file q; g_owned := match q_raw q with None => true | Some _ => false end;
+     g_huge := q_huge q |}.
 
 Definition request_mmap (q : req) : ev :=
   EvMmap (q_size q) (q_prot q) (q_flags q) (match q_file q with Some _ => true | None => false end)
@@ -426,10 +427,86 @@ Lemma xen_grant_leak_witness_lemma :
   exists l, xen_from_range Debug o r = Val (Err MmapErr, l) /\ live_after [] l = [(65536, 2)].
 Proof. eexists. vm_compute. split; reflexivity. Qed.
 
+(* ------------------------------------------------------------------ the hugetlbfs hint never decides *)
+Definition with_huge (q : req) (h : option bool) : req :=
+  {| q_size := q_size q; q_prot := q_prot q; q_flags := q_flags q; q_file := q_file q; q_raw := q_raw q;
+     q_huge := h |}.
+Definition region_with_huge (g : region) (h : option bool) : region :=
+  {| g_addr := g_addr g; g_size := g_size g; g_prot := g_prot g; g_flags := g_flags g; g_file := g_file g;
+     g_owned := g_owned g; g_huge := h |}.
+
+Lemma build_with_huge m o q h :
+  build m o (with_huge q h) =
+  match build m o q with
+  | Val (Ok g, l) => Val (Ok (region_with_huge g h), l)
+  | x => x
+  end.
+Proof.
+  unfold build, build_raw, with_huge, region_with_huge.
+  cbn [q_size q_prot q_flags q_file q_raw q_huge].
+  destruct (q_raw q) as [addr|].
+  - destruct (psub m 196 (os_page o) 1) as [mask| |]; cbn [bind]; try reflexivity.
+    destruct (N.land addr mask =? 0); reflexivity.
+  - destruct (negb (N.land (q_flags q) MAP_FIXED =? 0)); [reflexivity|].
+    destruct (q_file q) as [start|].
+    + destruct (check_file_offset o start (q_size q)) as [[[]|e] l1]; [|reflexivity].
+      destruct (os_mmap_ok o); reflexivity.
+    + destruct (os_mmap_ok o); reflexivity.
+Qed.
+
+Lemma hint_never_decides_lemma : forall m o q h,
+  (forall e l, build m o q = Val (Err e, l) <-> build m o (with_huge q h) = Val (Err e, l)) /\
+  (forall g l, build m o q = Val (Ok g, l) -> build m o (with_huge q h) = Val (Ok (region_with_huge g h), l)) /\
+  (forall g' l, build m o (with_huge q h) = Val (Ok g', l) ->
+                exists g, build m o q = Val (Ok g, l) /\ g' = region_with_huge g h) /\
+  (forall s, build m o q = Panic s <-> build m o (with_huge q h) = Panic s).
+Proof.
+  intros m o q h. rewrite build_with_huge.
+  destruct (build m o q) as [[[g|e] l]| |].
+  - split; [intros e' l'; split; discriminate|].
+    split; [intros g0 l0 H; inversion H; reflexivity|].
+    split; [intros g' l' H; inversion H; subst; exists g; split; reflexivity|].
+    intros s; split; discriminate.
+  - split; [intros e' l'; split; intros H; exact H|].
+    split; [intros g0 l0 H; discriminate|].
+    split; [intros g' l' H; discriminate|].
+    intros s; split; discriminate.
+  - split; [intros e' l'; split; discriminate|].
+    split; [intros g0 l0 H; discriminate|].
+    split; [intros g' l' H; discriminate|].
+    intros s; split; intros H; exact H.
+  - split; [intros e' l'; split; discriminate|].
+    split; [intros g0 l0 H; discriminate|].
+    split; [intros g' l' H; discriminate|].
+    intros s; split; discriminate.
+Qed.
+
+(* in particular: a file range past EOF (or overflowing) is refused whatever the hint says *)
+Lemma hint_past_eof_refused_lemma : forall m o q start h, q_raw q = None -> q_file q = Some start ->
+  N.testbit (q_flags q) 4 = false -> q_huge q = h ->
+  (start + q_size q < W64 -> os_filesize o < start + q_size q ->
+     exists l, build m o q = Val (Err MappingPastEof, l)) /\
+  (W64 <= start + q_size q -> exists l, build m o q = Val (Err InvalidOffsetLength, l)).
+Proof.
+  intros m o q start h Hr Hf Hx _. unfold build. rewrite Hr, Hf.
+  change MAP_FIXED with (2 ^ 4).
+  destruct (N.eqb_spec (N.land (q_flags q) (2 ^ 4)) 0) as [F|F]; cbn [negb].
+  2:{ exfalso. apply F. apply land_pow2_zero. exact Hx. }
+  pose proof (check_file_offset_spec o start (q_size q)) as [C1 [C2 [C3 _]]].
+  destruct (check_file_offset o start (q_size q)) as [[[]|e] l1] eqn:E; cbn [fst] in *.
+  - destruct (proj1 C1 eq_refl) as [A B]. split; intros; lia.
+  - split.
+    + intros A B. assert (X : Err e = Err MappingPastEof) by (apply C3; split; assumption).
+      inversion X; subst. eexists. reflexivity.
+    + intros A. assert (X : Err e = Err InvalidOffsetLength) by (apply C2; assumption).
+      inversion X; subst. eexists. reflexivity.
+Qed.
+
 (* ------------------------------------------------------------------ packaging for Properties/C15.v *)
 Lemma reports_request_full_lemma : forall m o q g l, build m o q = Val (Ok g, l) ->
   g_size g = q_size q /\ g_prot g = q_prot q /\ g_flags g = q_flags q /\ g_file g = q_file q /\
   g_addr g = q_raw q /\ g_owned g = (match q_raw q with None => true | Some _ => false end) /\
+  g_huge g = q_huge q /\
   match q_raw q with
   | Some _ => l = []
   | None => exists l1, mm_balance l1 = 0%Z /\
@@ -439,7 +516,7 @@ Lemma reports_request_full_lemma : forall m o q g l, build m o q = Val (Ok g, l)
   end.
 Proof.
   intros m o q g l H. destruct (reports_request_lemma m o q g l H) as [-> R].
-  unfold request_region. cbn [g_size g_prot g_flags g_file g_addr g_owned].
+  unfold request_region. cbn [g_size g_prot g_flags g_file g_addr g_owned g_huge].
   repeat (split; [reflexivity|]).
   destruct (q_raw q); [exact R|]. destruct R as [l1 [E B]]. exists l1. split; [exact B|exact E].
 Qed.
